@@ -24,7 +24,7 @@ run_demo() {  # prints PASS or FAIL
     if timeout 600 python3 "$m/demo/demo.py" $DEMO_ARGS >/dev/null 2>&1; then echo PASS; else echo FAIL; fi
   elif [ -f "$m/demo/run_demo.py" ]; then
     cargo build --offline >/dev/null 2>&1
-    if timeout 600 python3 "$m/demo/run_demo.py" >/dev/null 2>&1; then echo PASS; else echo FAIL; fi
+    if timeout 900 python3 "$m/demo/run_demo.py" "$wt/target/debug/acmed" >/dev/null 2>&1; then echo PASS; else echo FAIL; fi
   elif [ -f "$m/demo/run_demo.sh" ] || [ -f "$m/demo/demo.sh" ]; then
     cargo build --offline >/dev/null 2>&1
     sh_demo="$m/demo/run_demo.sh"; [ -f "$sh_demo" ] || sh_demo="$m/demo/demo.sh"
